@@ -40,7 +40,9 @@ theorem calcScores_fresh (c : Costs) (pend wtm : Bool) (mv : Nat) (h : pend = fa
 
 theorem fixedPoint_new (k : Nat) (c : Costs) : FixedPoint (Book.new k c) := by
   have hsz : (Book.new k c).size = 1 := rfl
-  refine ⟨by rw [hsz]; omega, ⟨?_, ?_⟩, ⟨fun _ => 0, ⟨?_, ?_⟩⟩, ⟨rfl, rfl, rfl⟩, ?_, ?_, ?_, ?_⟩
+  refine ⟨by rw [hsz]; omega, ⟨?_, ?_⟩,
+    (fun j => by rw [nd_new]; split <;> exact ⟨List.Pairwise.nil, List.Pairwise.nil⟩),
+    ⟨fun _ => 0, ⟨?_, ?_⟩⟩, ⟨rfl, rfl, rfl⟩, ?_, ?_, ?_, ?_⟩
   · intro i hi e he
     rw [hsz] at hi
     have : i = 0 := by omega
